@@ -1,109 +1,235 @@
 """C11 - WebSocket messages arrive intact and in order for every size and direction (spec/WsFrame*.tla, Codecs.tla)."""
+import concurrent.futures as cf
 import os
 import subprocess
 import vlib
 
 META = {
-    "engine": "WsFrame.tla, WsFrameStreams.tla, WsFrameSizes.tla, WsFrameHs.tla, Trace_WsFrame.tla, Codecs.tla",
+    "engine": "WsFrame.tla, WsFrameStreams.tla, WsFrameSizes.tla, WsFrameHs.tla, Trace_WsFrame.tla, Codecs.tla, "
+              "WsConn.tla, WsHub.tla, Trace_WsHub.tla",
     "technique": "TLC exhaustive enumeration of RFC 6455 frame streams (fragments, interleaved control frames, close, hostile "
                  "headers, every cut offset), of payload sizes around the header boundaries and of handshakes, with the "
                  "encoder checked against an independent recognizer and the reassembly machine; every state replayed on the "
                  "real asl::WebSocket / WebSocketServer over a socketpair (both roles) under ASan/LSan; recorded library "
-                 "output (wire bytes, client<->server exchanges, handshakes) validated against the same operators",
+                 "output (wire bytes, client<->server exchanges, handshakes) validated against the same operators.  Beyond the "
+                 "frames, three more modules are model-checked and bound in both directions: WsConn.tla (the life cycle of one "
+                 "connection as a transition system - CONNECTING/OPEN/CLOSING/CLOSED per end, a FIFO of messages, pings, pongs "
+                 "and close frames per direction, TCP close and reset - with every public call of WebSocket.h as an action: "
+                 "send, ping, close frame, close(), receive(), wait(t), hasInput(), closed()/connected(), code(); invariants "
+                 "PrefixDelivery, NoLoss, PongsAnswerPings, properties Monotone, QuietAfterClose), WsHub.tla (one "
+                 "WebSocketServer with N clients: isolation, clients(), broadcast under mutex(), close from either end; "
+                 "invariants Isolation, NoLoss, Registered, property BroadcastAll) and the grown WsFrameHs.tla (client role: "
+                 "accept value right / of another key / missing, non-101, missing Upgrade, server closing after every byte of "
+                 "its response, refused port; server role: sub-protocol offers; a WebSocketServer linked to an HttpServer).  "
+                 "R: every transition TLC prints is a script that harness/c11_conn_run.h executes over loopback TCP between "
+                 "library ends (connect() against a WebSocketServer started with bind()+start(true), commands executed inside "
+                 "the library's connection threads) and raw scripted peers, comparing every result and the exact bytes the "
+                 "library wrote; V: harness/c11_hub_record.cpp runs up to 24 clients in threads against one server with a "
+                 "broadcaster, pings, wait/closed/receive loops and closes from either end, and Trace_WsHub.tla validates the "
+                 "linearised log (per-connection FIFOs, lost wake-ups, causes of wake-ups, no loss before a graceful close, "
+                 "clients() bounds, client accept check with SHA-1/Base64 evaluated by TLC)",
     "design_ref": "DESIGN.md section 6, C11",
     "level_text": "TLC checks on WsFrame*.tla that Decode(Encode(f)) = f, that every message split into up to MaxFrag fragments "
                   "with pings in between is delivered exactly once, identical and in order, that the three header length "
                   "classes change at 125/126 and 65535/65536, and the RFC's accept-key example; each state is executed on "
                   "the real receiver/sender in both roles (deliveries, pongs, accept value compared; ASan, time bound), and "
-                  "recorded sends, library-to-library exchanges and handshakes are accepted only if TLC finds them allowed.",
-    "level_note": "Bounded (constants in spec/MC_WsFrame*_*.cfg); lengths beyond them are sampled (seeded, to 4 MiB in the "
-                  "thorough tier). Large payloads are (len, seed) descriptors expanded by a trusted helper; library<->library "
-                  "bodies are compared by length + 64-bit hash. Memory errors are observed (ASan/LSan), not decided. A stream "
-                  "that ends inside a frame or message may produce one trailing partial/garbage delivery (the property only "
-                  "forbids memory errors and negative lengths there); SHA-1 is evaluated for 60-byte inputs only.",
+                  "recorded sends, library-to-library exchanges and handshakes are accepted only if TLC finds them allowed.  "
+                  "Model checking of the connection life cycle (WsConn.tla: delivered is a prefix of sent, nothing sent before a "
+                  "graceful close is lost, CLOSED is final and silent, every ping is answered with its payload) and of a server "
+                  "with N clients (WsHub.tla: isolation, broadcast reaches exactly the registered connections, clients() = "
+                  "connections inside serve()), with every transition replayed as a script between real library ends and raw "
+                  "peers over loopback TCP, plus trace validation of recorded concurrent runs (1..24 clients, concurrent "
+                  "senders in both directions, sizes across the header boundaries, broadcaster) against Trace_WsHub.tla.",
+    "level_note": "Bounded (constants in spec/MC_WsFrame*_*.cfg, MC_WsConn_*.cfg, MC_WsHub_*.cfg); lengths beyond them are sampled "
+                  "(seeded, to 4 MiB in the thorough tier). Large payloads are (len, seed) descriptors expanded by a trusted helper; "
+                  "library<->library bodies are compared by length + 64-bit hash. Memory errors are observed (ASan/LSan), not decided. "
+                  "A stream that ends inside a frame or message may produce one trailing partial/garbage delivery (the property only "
+                  "forbids memory errors and negative lengths there); SHA-1 is evaluated for 60-byte inputs only. The raw server of "
+                  "the client-handshake cases computes accept values with an independent SHA-1/Base64 helper, which TLC validates "
+                  "on every recorded 'chs' event. OS interleavings of the concurrent runs are sampled; wait(t) = false counts as a "
+                  "lost wake-up only for t >= 1 s. Left unconstrained because the library's documentation does not define them: "
+                  "the view of an end whose connection was reset (the peer called close() - a plain TCP close, there is no closing "
+                  "handshake - with unread input or with a ping unanswered: messages sent before that close can be lost; only "
+                  "'delivered is a prefix of sent' is required), what receive() returns for a control frame, code() after a close "
+                  "without status code, whether a close frame is echoed, the close reason handed over as a last message, two "
+                  "threads sending on one WebSocket (an automatic pong is not under mutex()), response header names in another "
+                  "capitalisation (connect() may refuse them), a response that only lacks its last LF.",
 }
 
 ASAN = vlib.SAN_ENV["ASAN_OPTIONS"].replace("max_allocation_size_mb=4096", "max_allocation_size_mb=64")
 ENV = {"ASAN_OPTIONS": ASAN}
 
 
-def _cases(ctx, spec, cfg, name, timeout, **kw):
+def _cases(ctx, spec, cfg, name, timeout, xmx="8g", **kw):
     path = os.path.join(ctx.tmp, name)
-    ctx.model(spec, cfg, emit_to=path, timeout=timeout, xmx="8g", **kw)
+    ctx.model(spec, cfg, emit_to=path, timeout=timeout, xmx=xmx, **kw)
     return path
+
+
+CONN_PAIRS = (("rl", "raw client <-> library server"), ("lr", "library client <-> raw server"), ("ll", "library <-> library"))
+CONN_ASPECTS = ("data", "ctl", "closing")
 
 
 def run(ctx):
     lib = vlib.build_lib("asan")
     rep = vlib.build_harness(lib, "c11_replay", ["c11_replay.cpp"])
     rec = vlib.build_harness(lib, "c11_record", ["c11_record.cpp"])
-    tier = "quick" if ctx.quick else "thorough"
+    hrec = vlib.build_harness(lib, "c11_hub_record", ["c11_hub_record.cpp"])
     ctx.exhaustive = True
     ctx.rule = ("one case per state of WsFrameStreams (a frame stream, possibly cut or hostile, for one role), WsFrameSizes "
-                "(a message size / fragmentation / key, as receiver and as sender) and WsFrameHs (a handshake); "
-                "non-trivial = non-empty stream; distinct = distinct case lines")
-    args = ["--case-timeout-ms", "15000", "--batch", "400"]
-    c = _cases(ctx, "WsFrameHs", "MC_WsFrameHs_" + tier, "c11-hs.cases", ctx.pick(300, 1200), xss="512m", must_cover=False)
-    ctx.replay(rep, c, label="R/WsFrameHs", args=args, timeout=ctx.pick(300, 1200), env=ENV, jobs=4)
-    os.unlink(c)
-    c = _cases(ctx, "WsFrameSizes", "MC_WsFrameSizes_" + tier, "c11-size.cases", ctx.pick(300, 1200), must_cover=False)
-    ctx.replay(rep, c, label="R/WsFrameSizes", args=args, timeout=ctx.pick(600, 2400), env=ENV)
-    os.unlink(c)
-    c = _cases(ctx, "WsFrameStreams", "MC_WsFrameStreams_" + tier, "c11-ws.cases", ctx.pick(600, 3000))
-    ctx.replay(rep, c, label="R/WsFrameStreams", args=args, timeout=ctx.pick(600, 3000), env=ENV)
-    os.unlink(c)
-    # deeper fragmentation (4 fragments with control frames in every gap), without cuts and hostile frames
-    deep = ctx.pick("MC_WsFrameStreams_deep5", "MC_WsFrameStreams_deep")
-    c = _cases(ctx, "WsFrameStreams", deep, "c11-wsd.cases", ctx.pick(600, 3000), ignore_cov=("Cut", "GoHostile", "Next"))
-    ctx.replay(rep, c, label="R/" + deep[3:], args=args, timeout=ctx.pick(600, 3000), env=ENV)
-    os.unlink(c)
-    # V: what the library itself puts on the wire, library <-> library, handshakes, long random streams
-    files = ctx.record(rec, ctx.pick(12, 48), ctx.pick(250, 1200), "V/WsFrame", extra_args=["--mode", "0" if ctx.quick else "1"],
-                       timeout=ctx.pick(300, 1800), env=ENV)
-    ctx.validate_traces("Trace_WsFrame", "Trace_WsFrame", files, label="V/WsFrame", timeout=ctx.pick(600, 3000), xss="512m")
+                "(a message size / fragmentation / key, as receiver and as sender), WsFrameHs (a handshake in either role, a "
+                "linked HTTP port) and per transition of WsConn (a script of calls on the two ends of a connection) and WsHub "
+                "(a script over N connections of one server); non-trivial = non-empty stream / script; distinct = distinct case lines")
+    # independent lanes (TLC runs and replays overlap): the frame codec (two lanes), handshakes + sizes + recorded wire,
+    # the connection life cycle / the server with N clients (R), the same recorded from concurrent runs (V)
+    # (thorough tier: at most three TLC JVMs at a time - the big frame models need their 8 GB each)
+    def frames():
+        streams(ctx, lib, rep)
+        deep(ctx, lib, rep)
+
+    def around():
+        small(ctx, lib, rep)
+        grow_r(ctx, rep)
+
+    jobs = [lambda: streams(ctx, lib, rep), lambda: deep(ctx, lib, rep), lambda: small(ctx, lib, rep), lambda: grow_r(ctx, rep),
+            lambda: recorded(ctx, rec, hrec)] if ctx.quick else [frames, around, lambda: recorded(ctx, rec, hrec)]
+    with cf.ThreadPoolExecutor(len(jobs)) as ex:
+        for f in [ex.submit(j) for j in jobs]:
+            f.result()
+    tier = "quick" if ctx.quick else "thorough"
     ctx.assumptions += [
-        "exhaustive within the constants of spec/MC_WsFrame{Streams,Sizes,Hs}_%s.cfg; other lengths are sampled by the recorder" % tier,
+        "exhaustive within the constants of spec/MC_WsFrame{Streams,Sizes,Hs}_%s.cfg, MC_WsConn_*_%s.cfg and MC_WsHub_%s.cfg; other lengths are sampled by the recorders" % (tier, tier, tier),
         "memory errors are observed by ASan/LSan on the executed streams (allocations above 64 MiB are refused so that absurd length fields cannot exhaust the machine)",
         "messages have non-zero length (the library ignores empty sends and the application cannot tell an empty receive() result from a control frame)",
-        "no server threads: the library objects are attached to socketpairs through WebSocket(Socket, isclient) and SocketServer::serve(Socket); connect() runs against a raw loopback listener",
+        "frame-level cases attach the library objects to socketpairs through WebSocket(Socket, isclient) and SocketServer::serve(Socket); "
+        "life-cycle, hub, linked-port and client-handshake cases run over loopback TCP against a WebSocketServer / HttpServer started with "
+        "bind() + start(true) (the library's own accept and connection threads) or against a raw scripted peer",
+        "OS interleavings of the concurrent runs are sampled, not enumerated; a wait(t) that returns false is only judged a lost wake-up for t >= 1 s",
+        "the view of an end whose connection was reset under it (peer closed with unread input, or with an unanswered ping) is left open: only "
+        "'delivered is a prefix of sent' is required there",
     ]
 
 
-def _replay_recorded(path, lib):
-    """like vlib.replay_recorded, but the trace spec evaluates SHA-1 (deep recursion): TLC needs -Xss"""
+ARGS = ["--case-timeout-ms", "30000", "--batch", "400"]
+
+
+def streams(ctx, lib, rep):
+    tier = "quick" if ctx.quick else "thorough"
+    c = _cases(ctx, "WsFrameStreams", "MC_WsFrameStreams_" + tier, "c11-ws.cases", ctx.pick(600, 3000), workers=ctx.pick(6, 16))
+    ctx.replay(rep, c, label="R/WsFrameStreams", args=ARGS, timeout=ctx.pick(600, 3000), env=ENV)
+    os.unlink(c)
+
+
+def deep(ctx, lib, rep):
+    # deeper fragmentation (4 fragments with control frames in every gap), without cuts and hostile frames
+    deep = ctx.pick("MC_WsFrameStreams_deep5", "MC_WsFrameStreams_deep")
+    c = _cases(ctx, "WsFrameStreams.tla", deep, "c11-wsd.cases", ctx.pick(600, 3000), ignore_cov=("Cut", "GoHostile", "Next"), workers=ctx.pick(4, 16))
+    ctx.replay(rep, c, label="R/" + deep[3:], args=ARGS, timeout=ctx.pick(600, 3000), env=ENV)
+    os.unlink(c)
+
+
+def small(ctx, lib, rep):
+    tier = "quick" if ctx.quick else "thorough"
+    c = _cases(ctx, "WsFrameHs", "MC_WsFrameHs_" + tier, "c11-hs.cases", ctx.pick(300, 1200), xmx="2g", xss="512m", must_cover=False, workers=2)
+    ctx.replay(rep, c, label="R/WsFrameHs", args=ARGS, timeout=ctx.pick(300, 1200), env=ENV, jobs=4)
+    os.unlink(c)
+    c = _cases(ctx, "WsFrameSizes", "MC_WsFrameSizes_" + tier, "c11-size.cases", ctx.pick(300, 1200), xmx="2g", must_cover=False, workers=2)
+    ctx.replay(rep, c, label="R/WsFrameSizes", args=ARGS, timeout=ctx.pick(600, 2400), env=ENV, jobs=ctx.pick(8, 16))
+    os.unlink(c)
+
+
+def recorded(ctx, rec, hrec):
+    wire_v(ctx, rec)
+    grow_v(ctx, hrec)
+
+
+def wire_v(ctx, rec):
+    # V: what the library itself puts on the wire, library <-> library, handshakes, long random streams
+    files = ctx.record(rec, ctx.pick(12, 48), ctx.pick(250, 1200), "V/WsFrame", extra_args=["--mode", "0" if ctx.quick else "1"],
+                       timeout=ctx.pick(300, 1800), env=ENV)
+    ctx.validate_traces("Trace_WsFrame", "Trace_WsFrame", files, label="V/WsFrame", timeout=ctx.pick(600, 3000), xss="512m", xmx="2g", parallel=ctx.pick(6, 8))
+
+
+def grow_r(ctx, rep):
+    """R for the life cycle of a connection (WsConn.tla: three pairs of ends x three aspects) and for a server with N clients
+    (WsHub.tla): every transition TLC prints is a script executed over loopback TCP with the library's own server threads."""
+    tier = "quick" if ctx.quick else "thorough"
+    # actions a configuration cannot take by construction (no raw end, no library client, aspect switched off) may stay uncovered
+    off = {"rl": {"PreSend", "PreClosed"}, "lr": set(), "ll": {"RawSend", "RawFinish"},
+           "data": {"SendCtl", "Poll", "SendClose"}, "ctl": {"SendClose"}, "closing": {"SendCtl", "Poll"}}
+    runs = [("WsConn" if i % 2 else "WsConn.tla", "MC_WsConn_%s_%s_%s" % (p, a, tier), "R/WsConn.%s.%s" % (p, a), tuple(sorted(off[p] | off[a])))
+            for i, (p, a) in enumerate((p, a) for p, _ in CONN_PAIRS for a in CONN_ASPECTS)]
+    runs.append(("WsHub", "MC_WsHub_" + tier, "R/WsHub", ()))
+
+    def gen(run):
+        spec, cfg, label, ignore = run
+        cases = os.path.join(ctx.tmp, cfg + ".cases")
+        ctx.model(spec, cfg, emit_to=cases, workers=ctx.pick(2, 6), timeout=ctx.pick(300, 2400), xmx="2g", ignore_cov=ignore)
+        return cases
+
+    with cf.ThreadPoolExecutor(ctx.pick(4, 2)) as ex:
+        files = list(ex.map(gen, runs))
+    merged = os.path.join(ctx.tmp, "conn.cases")
+    with open(merged, "w") as out:
+        for (spec, cfg, label, ignore), cases in zip(runs, files):
+            n = 0
+            with open(cases) as f:
+                for ln in f:
+                    out.write(ln)
+                    n += 1
+            ctx.engines.append("%s: %d scripts printed by %s" % (label, n, cfg))
+            os.unlink(cases)
+    ctx.replay(rep, merged, label="R/WsConn+WsHub", args=ARGS, timeout=ctx.pick(900, 3000), env=ENV)
+    os.unlink(merged)
+
+
+def grow_v(ctx, hrec):
+    """V: concurrent runs (a real WebSocketServer, up to 8 / 24 library clients in threads, broadcaster, pings, waits, closes from
+    either end, connect() against a raw server with right / wrong / missing accept values) validated by Trace_WsHub.tla."""
+    files = ctx.record(hrec, ctx.pick(8, 32), ctx.pick(2500, 12000), "V/WsHub", extra_args=["--mode", "0" if ctx.quick else "1"],
+                       timeout=ctx.pick(300, 1800), env=ENV)
+    ctx.validate_traces("Trace_WsHub", "Trace_WsHub", files, label="V/WsHub", timeout=ctx.pick(600, 3000), xss="512m", xmx="2g", parallel=ctx.pick(4, 8))
+
+
+def _replay_recorded(path, lib, hub):
+    """like vlib.replay_recorded, but the trace specs evaluate SHA-1 (deep recursion): TLC needs -Xss"""
     import json
     import shutil
+    recname, tspec = ("c11_hub_record", "Trace_WsHub") if hub else ("c11_record", "Trace_WsFrame")
     tmp = os.path.join(vlib.BUILD, "tmp", "replay-%d" % os.getpid())
     os.makedirs(tmp, exist_ok=True)
     try:
         trace = path
         if not path.endswith(".ndjson"):
             info = json.load(open(path))
-            exe = vlib.build_harness(lib, "c11_record", ["c11_record.cpp"])
+            exe = vlib.build_harness(lib, recname, [recname + ".cpp"])
             trace = os.path.join(tmp, "t.ndjson")
             cmd = [exe, "--seed", str(info["seed"]), "--events", str(info["events"]), "--out", trace] + list(info.get("args", []))
+            if info.get("avoid"):
+                cmd += ["--avoid", ",".join(info["avoid"])]
             p = subprocess.run(["timeout", "900"] + cmd, env=vlib.run_env(ENV))
             if p.returncode != 0:
                 print("recorder failed again with exit %d (seed %s): violation reproduced" % (p.returncode, info["seed"]))
                 return 1
-        r = vlib.tlc("Trace_WsFrame", "Trace_WsFrame", workers=1, timeout=1800, env={"TRACE": trace}, xss="512m")
+        r = vlib.tlc(tspec, tspec, workers=1, timeout=1800, env={"TRACE": trace}, xss="512m")
         if r.rc == 0:
-            print("trace accepted by Trace_WsFrame")
+            print("trace accepted by " + tspec)
             return 0
         if r.violated() is None:
             print(r.tail(40))
             return 2
-        print("trace rejected by Trace_WsFrame near event %d: %s" % (r.depth, vlib._nth_line(trace, r.depth)))
+        print("trace rejected by %s near event %d: %s" % (tspec, r.depth, vlib._nth_line(trace, r.depth)))
         return 1
     finally:
         shutil.rmtree(tmp, ignore_errors=True)
 
 
 def replay(path):
+    path = os.path.abspath(path)      # (TLC runs in spec/)
     lib = vlib.build_lib("asan")
     base = os.path.basename(path)
     if base.startswith("rec-") or path.endswith(".ndjson"):
-        return _replay_recorded(path, lib)
+        return _replay_recorded(path, lib, "WsHub" in base)
     rep = vlib.build_harness(lib, "c11_replay", ["c11_replay.cpp"])
-    r = subprocess.run([rep, "--single", path, "--case-timeout-ms", "15000"], env=vlib.run_env(ENV))
+    r = subprocess.run([rep, "--single", path, "--case-timeout-ms", "30000"], env=vlib.run_env(ENV))
     return 1 if r.returncode == 1 else (0 if r.returncode == 0 else 2)
